@@ -46,9 +46,11 @@ MODES_LOCAL = ["lineint:KeyboardInterrupt", "lineint:SystemExit", "err:EIO", "er
                "intafter:KeyboardInterrupt", "double:remove", "double:unflock", "double:marker"]
 MODES_S3 = ["lineint:KeyboardInterrupt", "err:InternalError*7", "err:InternalError*2", "err:AccessDenied", "err:EndpointConnectionError*7",
             "errafter:InternalError", "errafter:EndpointConnectionError", "errafter:PreconditionFailed", "int:KeyboardInterrupt",
-            "intafter:KeyboardInterrupt", "double:delete", "double:lockrelease",
-            # the request LANDED, its response was lost, and every re-send is throttled until the retry budget is spent
-            "errafter:SlowDown*", "errafter:ServiceUnavailable*"]
+            "intafter:KeyboardInterrupt", "double:delete", "double:lockrelease"]
+# the request LANDED, its response was lost, and every re-send is throttled until the retry budget is spent: drawn as a
+# variant of errafter:InternalError (AFTER every other draw of the plan, so that the other modes keep their share and
+# their plans)
+MODES_S3_THROTTLED = ["errafter:SlowDown*", "errafter:ServiceUnavailable*"]
 
 
 def gen(rng: random.Random, tier: str, idx: int) -> dict:
@@ -67,8 +69,11 @@ def gen(rng: random.Random, tier: str, idx: int) -> dict:
         else:
             setup.append({"kind": "multi", "tag": f"s{k}", "n": 1})
     survive = mode.endswith(":KeyboardInterrupt") and rng.random() < 0.4
-    return {"backend": backend, "op": name, "mode": mode, "setup": setup, "fault_points": None, "survive": survive,
+    plan = {"backend": backend, "op": name, "mode": mode, "setup": setup, "fault_points": None, "survive": survive,
             "sample_k": 6 if tier == "quick" else None, "k_seed": rng.randrange(1 << 30)}
+    if mode == "errafter:InternalError" and backend != "local" and rng.random() < 0.4:
+        plan["mode"] = rng.choice(MODES_S3_THROTTLED)
+    return plan
 
 
 def shrink(plan: dict):
